@@ -135,6 +135,9 @@ def run_scenario(ex, fnode, c, scen):
         ex.forced = forced
         ex.decisions = []
         ex.hyps = []
+        ex.div_seen = set()
+        ex.var_shapes = {}
+        S.DIV_INSTANCES[:] = []
         ex.store = {}
         ex.names = {}
         ex.bindings = {}
@@ -208,6 +211,7 @@ def run_scenario(ex, fnode, c, scen):
             else:
                 v = sym_input(ex, sh, nm)
                 ex.store[p['id']] = v
+                ex.var_shapes[p['id']] = sh
                 register_inputs(ex, nm, v)
             names[nm] = Path(p['id'])
             ex.names[nm] = Path(p['id'])
